@@ -404,7 +404,16 @@ class WT:
                 if ret is not None:
                     return ret
             self.serial += 1
-            res = ('call', target.qualname, tuple(args), tuple(sorted(kwargs.items()))) + (() if self.noserial else (self.serial,))
+            # canonical call term of a package function: leading parameters given by keyword are written positionally
+            # (`f(data=d, kernel=k)` is `f(d, k)`), so terms do not depend on how the arguments were passed
+            cargs, ckw = list(args), dict(kwargs)
+            if bound is not None and not target.vararg:
+                for p_ in target.params[len(cargs):]:
+                    if p_ in ckw and not (isinstance(ckw[p_], tuple) and ckw[p_] and ckw[p_][0] == 'dict'):
+                        cargs.append(ckw.pop(p_))
+                    else:
+                        break
+            res = ('call', target.qualname, tuple(cargs), tuple(sorted(ckw.items()))) + (() if self.noserial else (self.serial,))
             self.calls.append(Call(target, bound or {}, args, kwargs, e, list(self.guards), f, res))
             return res
         callee = target.dotted if isinstance(target, Ext) else (self.ev(f, fn, env, depth) if not isinstance(fn, ast.Name) else
